@@ -147,6 +147,12 @@ class ModRef:
     def __repr__(self):
         return f"<ModRef {self.dotted}>"
 
+    def __eq__(self, other):
+        return isinstance(other, ModRef) and other.dotted == self.dotted
+
+    def __hash__(self):
+        return hash(("ModRef", self.dotted))
+
 
 class Closure:
     def __init__(self, node, env, mod, cls):
